@@ -811,7 +811,7 @@ def run_units_model(ctx, count):
   rng = ctx.rng
   lines, pend = [], []
   kinds = ["finalize", "finalize", "finalize", "edgeworth", "trapezoid", "bounds", "reduce", "pwlbounds", "pwlsqueeze",
-           "norm", "norm", "kflmax"]
+           "norm", "norm", "kflmax", "pwlfull", "pwlfull", "linfull", "catfull"]
   for _ in range(count):
     which = rng.choice(kinds)
     U = rng.choice([2, 2, 3])
@@ -882,6 +882,64 @@ def run_units_model(ctx, count):
       colmag = [max(mag(hf[:, u]) * (k + 1), mag(bf[:, u]), float(abs(omin)), float(abs(omax))) for u in range(U)]
       pend.append((which, dict(op=which, units=U, mults=mults, omin=omin, omax=omax, minc=bct_int(minc), maxc=bct_int(maxc),
                                bias=b, h=h), out, colmag, hf))
+    elif which == "pwlfull":
+      # the WHOLE PWLCalibrationConstraints call (bounds / monotonicity / CONVEXITY Dykstra loop + finalisation, incl.
+      # the units-dependent reshape of _project_convexity) on a multi-unit kernel vs the column-wise model
+      # `Tfl.Units.pwlConstraintU` = one `pwlp.call` per column
+      cfg = gen_pwl_cfg(rng)
+      if rng.random() < 0.6 and cfg["conv"] == 0:
+        cfg["conv"] = rng.choice([-1, 1])
+      k = len(cfg["lengths"]) + 1
+      kind, wf, w = exact_matrix(rng, k, U, mults)
+      try:
+        out = pwl_constraint(cfg)(tf.constant(wf, dtype=tf.float64)).numpy()
+      except Exception as e:
+        ctx.notes.append("un.pwlfull real call raised %s" % classify_exc(e))
+        continue
+      for u in range(U):
+        lines.append("pwlp.call %d %d %s %s %d %d %s %d %s" % (
+            cfg["mono"], cfg["conv"], opt(cfg["omin"]), opt(cfg["omax"]), cfg["cmin"], cfg["cmax"],
+            frl(cfg["lengths"]), cfg["iters"], frl([row[u] for row in w])))
+      bm = mag([fl(cfg["omin"]) or 0.0, fl(cfg["omax"]) or 0.0])
+      colmag = [max(mag(np.cumsum(wf[:, u])), mag(wf[:, u]), bm) for u in range(U)]
+      pend.append((which, dict(op=which, cfg=cfg, units=U, mults=mults, w=w), out, colmag, wf))
+    elif which == "linfull":
+      cfg = gen_linear_cfg(rng)
+      n = cfg["n"]
+      kind, wf, w = exact_matrix(rng, n, U, mults)
+      try:
+        out = linear_constraint(cfg)(tf.constant(wf, dtype=tf.float64)).numpy()
+      except Exception as e:
+        ctx.notes.append("un.linfull real call raised %s" % classify_exc(e))
+        continue
+      for u in range(U):
+        lines.append("lin.project %s %s %s %s %s %s %s" % (
+            il(cfg["monotonicities"]), il2(cfg["monotonic_dominances"] or []), il2(cfg["range_dominances"] or []),
+            ",".join(opt(v) for v in (cfg["input_min"] or [None] * n)), ",".join(opt(v) for v in (cfg["input_max"] or [None] * n)),
+            "none" if cfg["normalization_order"] is None else str(cfg["normalization_order"]), frl([row[u] for row in w])))
+      norm = cfg["normalization_order"] is not None
+      colmag = [max(mag(wf[:, u]), 1.0 if norm else 0.0) for u in range(U)]
+      pend.append((which, dict(op=which, cfg=cfg, units=U, mults=mults, w=w), out, colmag, wf))
+    elif which == "catfull":
+      from tensorflow_lattice.python import categorical_calibration_layer as ccl
+      n = rng.randint(2, 7)
+      pairs = rand_dag_pairs(rng, n, 6) if rng.random() < 0.75 else []
+      bmode = rng.choice(["none", "min", "max", "both"])
+      a = Fraction(rng.randint(-8, 8), 4)
+      lo = a if bmode in ("min", "both") else None
+      hi = a + Fraction(rng.randint(1, 16), 4) if bmode in ("max", "both") else None
+      kind, wf, w = exact_matrix(rng, n, U, mults)
+      try:
+        out = ccl.CategoricalCalibrationConstraints(output_min=fl(lo), output_max=fl(hi),
+                                                    monotonicities=pairs or None)(tf.constant(wf, dtype=tf.float64)).numpy()
+      except Exception as e:
+        ctx.notes.append("un.catfull real call raised %s" % classify_exc(e))
+        continue
+      for u in range(U):
+        lines.append("cat.project %s %s %s %s" % (opt(lo), opt(hi), il2(pairs), frl([row[u] for row in w])))
+      bm = mag([fl(lo) or 0.0, fl(hi) or 0.0])
+      colmag = [max(mag(wf[:, u]), bm) for u in range(U)]
+      pend.append((which, dict(op=which, n=n, pairs=pairs, lo=lo, hi=hi, units=U, mults=mults, w=w), out, colmag, wf))
     elif which == "norm":
       n = rng.randint(1, 5)
       kind, wf, w = exact_matrix(rng, n, U, mults)
@@ -903,9 +961,28 @@ def run_units_model(ctx, count):
       lines.append("un.kflmax %d %d %d %d %s" % (L, U, dims, T, frl(flat)))
       pend.append((which, dict(op=which, L=L, dims=dims, T=T, units=U, mults=mults, k=k), out, [1.0] * U, w4))
   replies = run_driver(lines, timeout=1200)
-  for (which, case, out, colmag, wf), rep in zip(pend, replies):
+  pos = 0
+  for (which, case, out, colmag, wf) in pend:
+    nrep = case["units"] if which in ("pwlfull", "linfull", "catfull") else 1
+    reps, rep = replies[pos:pos + nrep], replies[pos]
+    pos += nrep
     ctx.count("un:" + which)
     suite = "un." + which
+    if which in ("pwlfull", "linfull", "catfull"):
+      # column-wise multi-unit model: reply u = the one-unit model on column u
+      ctx.case(sig=(suite, hash(np.asarray(wf).tobytes()) % 99991), nontrivial=bool(np.any(out != wf)), sample=dict(case, out=out))
+      for u in range(case["units"]):
+        r = reps[u]
+        if r == "bad-op" or r.startswith("ERR"):
+          ctx.disagree(suite, case, out[:, u], r, "model rejects")
+          continue
+        toks = r.split(" ")
+        mv = parse_rats(toks[0])
+        if which == "linfull" and case["cfg"]["normalization_order"] == 2:
+          nrm = float(Fraction(toks[1])) ** 0.5
+          mv = [Fraction(float(v) / (nrm if nrm >= 1e-8 else 1.0)) for v in mv]
+        ctx.compare(suite, case, out[:, u], mv, colmag[u], rtol=1e-9)
+      continue
     ctx.case(sig=(suite, hash(np.asarray(wf).tobytes()) % 99991), nontrivial=True, sample=dict(case, out=out))
     if rep == "bad-op" or rep.startswith("ERR"):
       ctx.disagree(suite, case, out, rep, "model rejects")
